@@ -801,3 +801,13 @@ mutant('C19', 'minimum-teeth-rejected', MB, "        if n_teeth < MINIMUM_TEETH_
 mutant('C19', 'worm-max-helix-rejected', WG, "        if helix_angle > maximum_helix_angle:", "        if helix_angle >= maximum_helix_angle:", 'C19.boundary')
 mutant('C19', 'wheel-max-helix-rejected', WW, "        if helix_angle > maximum_helix_angle:", "        if helix_angle >= maximum_helix_angle:", 'C19.boundary')
 benign('C19', 'minimum-teeth-negated-form', MB, "        if n_teeth < MINIMUM_TEETH_NUMBER:", "        if not n_teeth >= MINIMUM_TEETH_NUMBER:")
+
+# ------------------------------------------------------------------------------------------ trig methods (sweep D)
+mutant('C09', 'angle-cos-forwards-to-sin', UN, "        return super().cos(frequency=frequency)", "        return super().sin(frequency=frequency)", 'C09.trig')
+mutant('C10', 'tan-of-degrees', UN, "        return tan(2*pi*frequency*self.to('rad').value)", "        return tan(2*pi*frequency*self.value)", 'C10.trig')
+mutant('C09', 'default-frequency-wrong', UN, "    def cos(self, frequency: Optional[float | int] = 1/2/pi) -> float:", "    def cos(self, frequency: Optional[float | int] = 1/2*pi) -> float:", 'C09.trig', nth=0)
+mutant('C19', 'angle-zero-rejected', UN, "        if value < 0:\n            raise ValueError(\"Parameter 'value' must be positive or null.\")", "        if value <= 0:\n            raise ValueError(\"Parameter 'value' must be positive or null.\")", 'C19.boundary')
+
+# ------------------------------------------------------------------------------------------ C05 constructors store what they are given (sweep D)
+mutant('C05', 'torque-ctor-stores-abs', UN, "        self.__value = value\n        self.__unit = unit\n", "        self.__value = abs(value)\n        self.__unit = unit\n", 'C05.ctor', nth=5)
+mutant('C05', 'ctor-drops-unit', UN, "        self.__value = value\n        self.__unit = unit\n", "        self.__value = value\n", 'C05.ctor', nth=3)
